@@ -154,6 +154,22 @@ class Gen(object):
         if tcols:
           shapes.append("list($%s.%s)" % (c, r.choice(tcols)))
           shapes.append("len($%s)" % c)
+    # the same target column reached through two different relations (two Ref columns to one table,
+    # a Ref into the own table next to a direct read)
+    by_target = {}
+    for c in cols:
+      typ = view.tables[tid]["cols"][c][1]
+      if typ.startswith('Ref:') and typ[4:] in view.tables:
+        by_target.setdefault(typ[4:], []).append(c)
+    for tgt, rcs in by_target.items():
+      tcols = [x for x in view.data_cols(tgt) if usable(tgt, x)]
+      if tcols and len(rcs) >= 2:
+        a, b = r.sample(rcs, 2)
+        x = r.choice(tcols)
+        shapes.append("[$%s.%s, $%s.%s]" % (a, x, b, x))
+      if tcols and tgt == tid:
+        x = r.choice(tcols)
+        shapes.append("[$%s, $%s.%s]" % (x, rcs[0], x))
     # lookups into this or another table by a data column
     for t in ([tid] + others)[:3]:
       tcols = [c for c in view.data_cols(t) if usable(t, c)]
@@ -168,6 +184,10 @@ class Gen(object):
           if opts.get("sorted_lookups"):
             shapes.append("[r.id for r in %s.lookupRecords(%s=$%s, order_by='-%s')]" % (t, k, mine, k2))
           shapes.append("sorted(%s.lookupRecords(%s=$%s).%s, key=repr)" % (t, k, mine, k2))
+          if len(tcols) >= 3:
+            k3 = r.choice([c for c in tcols if c not in (k, k2)])
+            shapes.append("[sorted(%s.lookupRecords(%s=$%s).%s, key=repr), sorted(%s.lookupRecords(%s=$%s).%s, key=repr)]"
+                          % (t, k, mine, k3, t, k2, mine, k3))
     if not shapes:
       shapes = ["1", "'x'", "None", "rec.id * 2"]
     shapes += ["$id", "1 + 1"]
